@@ -73,7 +73,7 @@ func vectors() []vec {
 	V := []vec{
 		// ---- integers: canonical forms only ----
 		{func() interface{} { return new(uint64) }, "80", true, func() *uint64 { x := uint64(0); return &x }()},
-		{func() interface{} { return new(uint64) }, "00", false, nil},     // zero is the empty string, not 0x00
+		{func() interface{} { return new(uint64) }, "00", false, nil}, // zero is the empty string, not 0x00
 		{func() interface{} { return new(uint64) }, "01", true, func() *uint64 { x := uint64(1); return &x }()},
 		{func() interface{} { return new(uint64) }, "7f", true, nil},
 		{func() interface{} { return new(uint64) }, "8180", true, nil},
@@ -322,17 +322,17 @@ func groupFixed(c *core.Case) {
 			return reflect.StructField{Name: name, Type: t, Tag: reflect.StructTag(tag)}
 		}
 		bad := map[string][]reflect.StructField{
-			"required-after-optional": {sf("A", u, `rlp:"optional"`), sf("B", u, "")},
+			"required-after-optional":  {sf("A", u, `rlp:"optional"`), sf("B", u, "")},
 			"required-after-tail-like": {sf("A", u, ""), sf("B", u, `rlp:"optional"`), sf("C", su, "")},
-			"tail-not-last":           {sf("A", su, `rlp:"tail"`), sf("B", u, "")},
-			"tail-not-slice":          {sf("A", u, ""), sf("B", u, `rlp:"tail"`)},
-			"tail-and-optional":       {sf("A", u, ""), sf("B", su, `rlp:"optional,tail"`)},
-			"nil-on-non-pointer":      {sf("A", u, `rlp:"nil"`)},
-			"unknown-tag":             {sf("A", u, `rlp:"nul"`)},
-			"signed-int-field":        {sf("A", reflect.TypeOf(int(0)), "")},
-			"map-field":               {sf("A", reflect.TypeOf(map[string]uint(nil)), "")},
-			"chan-field":              {sf("A", reflect.TypeOf((chan uint)(nil)), "")},
-			"float-field":             {sf("A", reflect.TypeOf(float64(0)), "")},
+			"tail-not-last":            {sf("A", su, `rlp:"tail"`), sf("B", u, "")},
+			"tail-not-slice":           {sf("A", u, ""), sf("B", u, `rlp:"tail"`)},
+			"tail-and-optional":        {sf("A", u, ""), sf("B", su, `rlp:"optional,tail"`)},
+			"nil-on-non-pointer":       {sf("A", u, `rlp:"nil"`)},
+			"unknown-tag":              {sf("A", u, `rlp:"nul"`)},
+			"signed-int-field":         {sf("A", reflect.TypeOf(int(0)), "")},
+			"map-field":                {sf("A", reflect.TypeOf(map[string]uint(nil)), "")},
+			"chan-field":               {sf("A", reflect.TypeOf((chan uint)(nil)), "")},
+			"float-field":              {sf("A", reflect.TypeOf(float64(0)), "")},
 		}
 		for name, fs := range bad {
 			run.Eval(1)
@@ -479,6 +479,9 @@ func groupFixed(c *core.Case) {
 
 // fixedListBounds: "For non-toplevel values, Stream returns ErrElemTooLarge for values that do not fit into
 // the enclosing list" (NewStream documentation). Probed directly at Stream.Kind after entering the outer list.
+// Regression case of a defect this check found (repaired in /repo, commit "fix: rlp Stream.Kind checks the value
+// size against the list's remaining size"): Kind compared the announced size with the list's remaining size read
+// BEFORE the element's own header was deducted, so c2c20055 / c2820000 / c2c1c101 passed.
 func fixedListBounds(e *env) {
 	c, run := e.c, e.run
 	type probe struct {
@@ -531,7 +534,7 @@ func fixedListBounds(e *env) {
 	}
 	if len(failed) > 0 {
 		e.viol("elem-larger-than-list-not-rejected:Stream.Kind",
-			"Stream.Kind accepts a list element that does not fit into the enclosing list (it compares the announced size with the list's remaining size BEFORE the element's own header was deducted): "+failed[0],
+			"Stream.Kind accepts a list element that does not fit into the enclosing list: "+failed[0],
 			map[string]interface{}{"failed_probes": failed})
 	}
 	// consequence on a Stream without input limit: after the inner list is entered the outer list's remaining size
@@ -585,5 +588,3 @@ func eqWant(want, got interface{}) bool {
 	}
 	return reflect.DeepEqual(w, g)
 }
-
-var _ = core.Register
